@@ -356,6 +356,11 @@ class WSStream:
                 and self.state == ASGIWebsocketState.HANDSHAKE
                 and self.response is None  # Otherwise it is a second start
             ):
+                # Validated here, an error belongs to this message not to
+                # the (valid) body message that follows it
+                build_and_validate_headers(message.get("headers", []))
+                if not 200 <= int(message["status"]) <= 999:
+                    raise ValueError(f"{message['status']} is not a final response status")
                 self.response = message
             elif message["type"] == "websocket.http.response.body" and self.state in {
                 ASGIWebsocketState.HANDSHAKE,
